@@ -17,7 +17,7 @@ def main(argv=None):
 
         return replay.main([a.replay])
     prop = a.prop
-    if prop in ("C01", "C02", "C06"):
+    if prop in ("C01", "C02", "C06", "C03", "C05"):
         from .props import entity
 
         return entity.check(prop, a.tier)
